@@ -798,19 +798,20 @@ func c19Configs(thorough bool) []*c19Cfg {
 			},
 		},
 		{
-			// node-level CPU bind policy: pods that are not LSR/LSE get CPU sets too; reserved CPU 0 splits the ranges
-			Name: "fullpcpus-node-1x2x3x2-reserved", L: c19NewLayout(1, 2, 3, 2, false), MemPerNode: "8Gi", ReservedCPUs: "0-1",
+			// node-level CPU bind policy: pods that are not LSR/LSE get CPU sets too; kubelet-reported reserved CPUs and
+			// kubelet-reported topology manager policy (best-effort: admission happens in Reserve)
+			Name: "fullpcpus-node-1x2x3x2-reserved", L: c19NewLayout(1, 2, 3, 2, false), MemPerNode: "8Gi", ReservedCPUs: "0-1", KubeletNUMA: "BestEffort",
 			NodeLabels: map[string]string{extension.LabelNodeCPUBindPolicy: string(extension.NodeCPUBindPolicyFullPCPUsOnly)},
 			Pods: []c19PodSpec{
 				{Name: "a", QoS: "LS", CPU: "2", Mem: "1Gi"},
 				{Name: "b", QoS: "LS", CPU: "2", Mem: "1Gi", Spec: &extension.ResourceSpec{PreferredCPUExclusivePolicy: pcpu}},
-				{Name: "c", QoS: "LSR", CPU: "4", Mem: "1Gi", Spec: &extension.ResourceSpec{PreferredCPUExclusivePolicy: numal}, NUMA: besteffort},
+				{Name: "c", QoS: "LSR", CPU: "4", Mem: "1Gi", Spec: &extension.ResourceSpec{PreferredCPUExclusivePolicy: numal}},
 				{Name: "r", Reservation: true, QoS: "LSR", CPU: "2", Mem: "1Gi", Spec: &extension.ResourceSpec{PreferredCPUBindPolicy: full, PreferredCPUExclusivePolicy: none}},
 			},
 		},
 		{
 			// sharing limit 2: ref counts of 2, pods with the same and with different exclusive policies on one CPU
-			Name: "shared-limit2-1x1x2x2", L: c19NewLayout(1, 1, 2, 2, false), MemPerNode: "8Gi", MaxRef: 2, KubeletNUMA: "SingleNUMANodePodLevel",
+			Name: "shared-limit2-1x1x2x2", L: c19NewLayout(1, 1, 2, 2, false), MemPerNode: "8Gi", MaxRef: 2,
 			Pods: []c19PodSpec{
 				{Name: "a", QoS: "LSR", CPU: "4", Mem: "1Gi", Spec: &extension.ResourceSpec{PreferredCPUBindPolicy: full, PreferredCPUExclusivePolicy: pcpu}},
 				{Name: "b", QoS: "LSR", CPU: "3", Mem: "1Gi", Spec: &extension.ResourceSpec{PreferredCPUBindPolicy: spread, PreferredCPUExclusivePolicy: pcpu}},
@@ -860,7 +861,8 @@ func TestVerifC19Numa(t *testing.T) {
 		for _, p := range cfg.Pods {
 			specs = append(specs, p.String())
 		}
-		res.Bounds = map[string]any{"topology": cfg.L.Name, "node_labels": cfg.NodeLabels, "max_ref_count": cfg.MaxRef, "reserved_cpus": cfg.ReservedCPUs, "identities": specs}
+		res.Bounds = map[string]any{"topology": cfg.L.Name, "node_labels": cfg.NodeLabels, "max_ref_count": cfg.MaxRef, "reserved_cpus": cfg.ReservedCPUs, "identities": specs,
+			"as_understood_by_the_plugin": fmt.Sprintf("cpus=%d numa_nodes=%d reserved=%v kubelet_numa_policy=%q max_ref=%d", cfg.opts.CPUTopology.NumCPUs, len(cfg.opts.NUMANodeResources), cfg.opts.ReservedCPUs.ToSlice(), cfg.opts.NUMATopologyPolicy, cfg.MaxRef)}
 		b := &mc.BFS{Res: res, Env: sub, New: func() mc.System { return c19NewSys(cfg, base) }, NumOps: len(cfg.Pods) * c19OpsPerIdent,
 			OpName: cfg.opName, MaxDepth: env.Pick(4, 6), Repeats: 0}
 		b.Run()
@@ -873,7 +875,9 @@ func TestVerifC19Numa(t *testing.T) {
 		}
 		env.Emit(res)
 	}
-	c19TopologyOrder(env, base, cfgs)
+	if env.Replay == "" { // its witnesses are described, not machine-replayed (see numa_repro_test.go.txt)
+		c19TopologyOrder(env, base, cfgs)
+	}
 }
 
 // c19TopologyOrder: the NodeResourceTopology object is one more surviving object whose informer (started together with
